@@ -52,7 +52,7 @@ theorem inline_table_item_loses_wrapper :
     (match createAnonymousBoxes (bx .FlexBox [bx .InlineTableBox []]) with
       | .ok r => r.kids.map (fun (w : KBox) => (w.kind, w.inst.wrapper, w.kids.map (fun (t : KBox) => t.kind)))
       | .error _ => []) = [(.BlockBox, false, [.InlineTableBox])] := by
-  rfl
+  decide +kernel
 
 /-- A no-break space between two rows is not CSS white space, yet rule 1.4 deletes it (`\S`). -/
 theorem nbsp_between_rows_dropped :
@@ -60,5 +60,12 @@ theorem nbsp_between_rows_dropped :
       | .ok r => leafText r | .error _ => [0]) = [] ∧
     leafText (bx .TableBox [bx .TableRowBox [], tx [160], bx .TableRowBox []]) = [160] := by
   constructor <;> rfl
+
+/-- `li::marker { display: none }`: `marker_to_box` calls `make_box` before it tests the display, and
+`BOX_TYPE_FROM_DISPLAY` has no entry for `('none',)`: KeyError, the whole document fails. -/
+theorem marker_display_none_crash :
+    (match markerToBox ⟨{ display := ["none"] }, .inhibit, some [8226, 32]⟩ {} true 0 with
+      | .ok _ => none | .error e => some e) = some .keyError := by
+  decide +kernel
 
 end Wp.Witness.C08
